@@ -496,15 +496,14 @@ package helper
 
 // whatever the bytes: no index out of range, the stream is closed on every path, the read loop terminates
 // the reader keeps encoding/csv's default dialect - the one encoding/csv.Writer produces - for every record it reads
-// (loop#0's first invariant): a comment character, another separator, lazy quotes or trimming would make written rows
+// (loop#0's invariant tagged C11): a comment character, another separator, lazy quotes or trimming would make written rows
 // read back differently (C11)
 //@ func Csv.ReadFromReader
 //@ modifies c
-//@ ensures[C11] "rows-are-read-in-the-writer's-dialect-until-the-stream-closes" closed(result)
 //@ requires forall j :: 0 <= j && j < len(c.columns) ==> c.columns[j].ColumnIndex >= 0 - 1
 //@ ensures[C19] "stream-is-closed-on-every-path" closed(result)
 //@ loop#0 invariant !closed(rows) && extrem(csvReader) >= 0 && (forall j :: 0 <= j && j < len(c.columns) ==> c.columns[j].ColumnIndex >= 0 - 1)
-//@ loop#0 invariant csvReader.Comma == 44 && csvReader.Comment == 0 && !csvReader.LazyQuotes && !csvReader.TrimLeadingSpace && csvReader.FieldsPerRecord == 0 && !csvReader.ReuseRecord
+//@ loop#0 invariant[C11] csvReader.Comma == 44 && csvReader.Comment == 0 && !csvReader.LazyQuotes && !csvReader.TrimLeadingSpace && csvReader.FieldsPerRecord == 0 && !csvReader.ReuseRecord
 //@ loop#0 invariant c.hasHeader ==> csvfpr(csvReader) >= 0 && (forall j :: 0 <= j && j < len(c.columns) ==> c.columns[j].ColumnIndex < csvfpr(csvReader))
 //@ loop#0 decreases extrem(csvReader)
 //@ loop#1 invariant !closed(rows)
